@@ -468,6 +468,12 @@ def compare_vars(case, model, env, exp, got, assigned, why, fvalue_float=None):
             continue
         val = got.get(var)
         if val is None:
+            if why.get(var) == "no piecewise branch taken":
+                # the IR statement is a Piecewise none of whose conditions holds at this probe (NaN) although the variable has
+                # a value under NM-TRAN rules (it keeps the value it had): judged, like a wrong value
+                consistent = None if (dz is not None and dz[1] == 0) else False
+                problems.append(("no_branch", var, str(_frac(p)), "no branch of its Piecewise is taken", consistent))
+                continue
             stats["undef_impl"] += 1
             continue
         stats["compared"] += 1
